@@ -35,6 +35,8 @@ Inductive op :=
 | OTimeout                      (* the clock passes the launch timeout *)
 | OExit (x : exitst)            (* the process ends *)
 | OWhen (w : N)                 (* when_connected() is called; the Deferred is waiter w (>= 1) *)
+| OWhenR (w w' : N)             (* the same, and the callback under waiter w calls when_connected() again while w is
+                                   being told (from inside the delivery); that second Deferred is waiter w' *)
 | OShutdown.                    (* reactor shutdown: the 'before shutdown' triggers run *)
 
 Inductive res := ROk | RFail (k : N).   (* 1 launch timeout, 2 exit code, 3 killed, 4 killed after timeout, 9 other *)
@@ -99,12 +101,13 @@ Record sst := { s_conns : list sconn;
                 s_acc : bytes;              (* stdout so far, until the first connection attempt *)
                 s_tried : bool;             (* a connection attempt was made *)
                 s_att : N;                  (* round trips the config attach in flight still needs; 0 = none in flight *)
-                s_wait0 : bool }.           (* launch succeeded, its result (waiter 0) is held back until the attach is over *)
+                s_wait0 : bool;             (* launch succeeded, its result (waiter 0) is held back until the attach is over *)
+                s_nested : list N }.        (* the requests the callbacks of waiting waiters will make when they are told *)
 
 Definition s0 (c : cfg) : sst :=
   {| s_conns := []; s_npend := 0; s_decided := None; s_waiting := [0]; s_exited := false;
      s_timer := c_timeout c; s_gone := false; s_acc := []; s_tried := false;
-     s_att := 0; s_wait0 := false |}.
+     s_att := 0; s_wait0 := false; s_nested := [] |}.
 
 Definition nthc (s : sst) (c : N) : option sconn := nth_error (s_conns s) (N.to_nat c).
 
@@ -118,14 +121,14 @@ Fixpoint set_nth {A} (n : nat) (x : A) (l : list A) : list A :=
 Definition upd_conn (s : sst) (c : N) (q : sconn) : sst :=
   {| s_conns := set_nth (N.to_nat c) q (s_conns s); s_npend := s_npend s; s_decided := s_decided s;
      s_waiting := s_waiting s; s_exited := s_exited s; s_timer := s_timer s; s_gone := s_gone s;
-     s_acc := s_acc s; s_tried := s_tried s; s_att := s_att s; s_wait0 := s_wait0 s |}.
+     s_acc := s_acc s; s_tried := s_tried s; s_att := s_att s; s_wait0 := s_wait0 s; s_nested := s_nested s |}.
 
 Definition decide (s : sst) (b : bool) : sst :=
   match s_decided s with
   | Some _ => s
   | None => {| s_conns := s_conns s; s_npend := s_npend s; s_decided := Some b; s_waiting := [];
                s_exited := s_exited s; s_timer := s_timer s; s_gone := s_gone s;
-               s_acc := s_acc s; s_tried := s_tried s; s_att := s_att s; s_wait0 := s_wait0 s |}
+               s_acc := s_acc s; s_tried := s_tried s; s_att := s_att s; s_wait0 := s_wait0 s; s_nested := [] |}
   end.
 
 Definition memN (k : N) (l : list N) : bool := existsb (N.eqb k) l.
@@ -142,7 +145,7 @@ Definition decide_ok (s : sst) : sst :=
   | None => {| s_conns := s_conns s; s_npend := s_npend s; s_decided := Some true; s_waiting := [];
                s_exited := s_exited s; s_timer := s_timer s; s_gone := s_gone s;
                s_acc := s_acc s; s_tried := s_tried s; s_att := s_att s;
-               s_wait0 := memN 0 (s_waiting s) |}
+               s_wait0 := memN 0 (s_waiting s); s_nested := [] |}
   end.
 
 (* the config attach in flight is over with this answer: the last round trip accepted, or one rejected *)
@@ -163,17 +166,17 @@ Definition op_effect (c : cfg) (s : sst) (o : op) : sst :=
       if s_tried s then s else
       {| s_conns := s_conns s; s_npend := s_npend s; s_decided := s_decided s; s_waiting := s_waiting s;
          s_exited := s_exited s; s_timer := s_timer s; s_gone := s_gone s;
-         s_acc := s_acc s ++ chunk; s_tried := false; s_att := s_att s; s_wait0 := s_wait0 s |}
+         s_acc := s_acc s ++ chunk; s_tried := false; s_att := s_att s; s_wait0 := s_wait0 s; s_nested := s_nested s |}
   | OConnOk =>
       match s_npend s with
       | O => s
       | S n => {| s_conns := s_conns s ++ [{| q_auth := false; q_own := false; q_evon := false; q_fifo := [] |}];
                   s_npend := n; s_decided := s_decided s; s_waiting := s_waiting s; s_exited := s_exited s;
-                  s_timer := s_timer s; s_gone := s_gone s; s_acc := s_acc s; s_tried := s_tried s; s_att := s_att s; s_wait0 := s_wait0 s |}
+                  s_timer := s_timer s; s_gone := s_gone s; s_acc := s_acc s; s_tried := s_tried s; s_att := s_att s; s_wait0 := s_wait0 s; s_nested := s_nested s |}
       end
   | OConnFail =>
       {| s_conns := s_conns s; s_npend := pred (s_npend s); s_decided := s_decided s; s_waiting := s_waiting s;
-         s_exited := s_exited s; s_timer := s_timer s; s_gone := s_gone s; s_acc := s_acc s; s_tried := s_tried s; s_att := s_att s; s_wait0 := s_wait0 s |}
+         s_exited := s_exited s; s_timer := s_timer s; s_gone := s_gone s; s_acc := s_acc s; s_tried := s_tried s; s_att := s_att s; s_wait0 := s_wait0 s; s_nested := s_nested s |}
   | OBoot k ok =>
       match nthc s k with
       | Some q => if ok then upd_conn s k {| q_auth := true; q_own := q_own q; q_evon := q_evon q; q_fifo := q_fifo q |}
@@ -198,29 +201,36 @@ Definition op_effect (c : cfg) (s : sst) (o : op) : sst :=
       {| s_conns := s_conns s; s_npend := s_npend s; s_decided := s_decided s; s_waiting := s_waiting s;
          s_exited := s_exited s; s_timer := s_timer s; s_gone := s_gone s; s_acc := s_acc s; s_tried := s_tried s;
          s_att := if ok then N.pred (s_att s) else 0;
-         s_wait0 := s_wait0 s && negb (att_resolves s ok) |}
+         s_wait0 := s_wait0 s && negb (att_resolves s ok); s_nested := s_nested s |}
   | OStatus _ => s
   | OTimeout =>
       if s_timer s then
         let s1 := decide s false in
         {| s_conns := s_conns s1; s_npend := s_npend s1; s_decided := s_decided s1; s_waiting := s_waiting s1;
-           s_exited := s_exited s1; s_timer := false; s_gone := s_gone s1; s_acc := s_acc s1; s_tried := s_tried s1; s_att := s_att s1; s_wait0 := s_wait0 s1 |}
+           s_exited := s_exited s1; s_timer := false; s_gone := s_gone s1; s_acc := s_acc s1; s_tried := s_tried s1; s_att := s_att s1; s_wait0 := s_wait0 s1; s_nested := s_nested s1 |}
       else s
   | OExit _ =>
       let s1 := decide s false in
       {| s_conns := s_conns s1; s_npend := s_npend s1; s_decided := s_decided s1; s_waiting := s_waiting s1;
-         s_exited := true; s_timer := s_timer s1; s_gone := true; s_acc := s_acc s1; s_tried := s_tried s1; s_att := s_att s1; s_wait0 := s_wait0 s1 |}
+         s_exited := true; s_timer := s_timer s1; s_gone := true; s_acc := s_acc s1; s_tried := s_tried s1; s_att := s_att s1; s_wait0 := s_wait0 s1; s_nested := s_nested s1 |}
   | OWhen w =>
       match s_decided s with
       | Some _ => s
       | None => {| s_conns := s_conns s; s_npend := s_npend s; s_decided := None; s_waiting := s_waiting s ++ [w];
                    s_exited := s_exited s; s_timer := s_timer s; s_gone := s_gone s; s_acc := s_acc s;
-                   s_tried := s_tried s; s_att := s_att s; s_wait0 := s_wait0 s |}
+                   s_tried := s_tried s; s_att := s_att s; s_wait0 := s_wait0 s; s_nested := s_nested s |}
+      end
+  | OWhenR w w' =>
+      match s_decided s with
+      | Some _ => s
+      | None => {| s_conns := s_conns s; s_npend := s_npend s; s_decided := None; s_waiting := s_waiting s ++ [w];
+                   s_exited := s_exited s; s_timer := s_timer s; s_gone := s_gone s; s_acc := s_acc s;
+                   s_tried := s_tried s; s_att := s_att s; s_wait0 := s_wait0 s; s_nested := s_nested s ++ [w'] |}
       end
   | OErr _ => s
   | OShutdown =>
       {| s_conns := s_conns s; s_npend := s_npend s; s_decided := s_decided s; s_waiting := s_waiting s;
-         s_exited := s_exited s; s_timer := s_timer s; s_gone := true; s_acc := s_acc s; s_tried := s_tried s; s_att := s_att s; s_wait0 := s_wait0 s |}
+         s_exited := s_exited s; s_timer := s_timer s; s_gone := true; s_acc := s_acc s; s_tried := s_tried s; s_att := s_att s; s_wait0 := s_wait0 s; s_nested := s_nested s |}
   end.
 
 (* what the client was seen to do: commands sent, connection attempts, the config attach started, the
@@ -235,16 +245,16 @@ Definition absorb1 (c : cfg) (s : sst) (e : obs) : sst :=
       end
   | EConnecting =>
       {| s_conns := s_conns s; s_npend := S (s_npend s); s_decided := s_decided s; s_waiting := s_waiting s;
-         s_exited := s_exited s; s_timer := s_timer s; s_gone := s_gone s; s_acc := s_acc s; s_tried := true; s_att := s_att s; s_wait0 := s_wait0 s |}
+         s_exited := s_exited s; s_timer := s_timer s; s_gone := s_gone s; s_acc := s_acc s; s_tried := true; s_att := s_att s; s_wait0 := s_wait0 s; s_nested := s_nested s |}
   | EAttach _ =>
       {| s_conns := s_conns s; s_npend := s_npend s; s_decided := s_decided s; s_waiting := s_waiting s;
          s_exited := s_exited s; s_timer := s_timer s; s_gone := s_gone s; s_acc := s_acc s; s_tried := s_tried s;
-         s_att := c_attach c; s_wait0 := s_wait0 s |}
+         s_att := c_attach c; s_wait0 := s_wait0 s; s_nested := s_nested s |}
   | EFired w _ =>
       if w =? 0 then
         {| s_conns := s_conns s; s_npend := s_npend s; s_decided := s_decided s; s_waiting := s_waiting s;
            s_exited := s_exited s; s_timer := s_timer s; s_gone := s_gone s; s_acc := s_acc s; s_tried := s_tried s;
-           s_att := s_att s; s_wait0 := false |}
+           s_att := s_att s; s_wait0 := false; s_nested := s_nested s |}
       else s
   | _ => s
   end.
@@ -278,6 +288,8 @@ Definition chunk_ok (c : cfg) (s : sst) (o : op) (es : list obs) : bool :=
   let fs := fires es in
   let quiet := match signals es with [] => true | _ => false end in
   let s' := op_effect c s o in
+  (* who is told at the decision: the waiting ones, and the requests their callbacks make meanwhile *)
+  let everyone := s_waiting s ++ s_nested s in
   (* the directory *)
   (match dirs es with [d] => Bool.eqb d (c_userdir c || negb (s_gone s')) | _ => false end)
   (* connection attempts: the first one exactly when the listener line has been seen on stdout *)
@@ -294,13 +306,20 @@ Definition chunk_ok (c : cfg) (s : sst) (o : op) (es : list obs) : bool :=
           | Some b => match fs with [(w', r)] => (w' =? w) && res_is b r | _ => false end
           | None => no_fire fs
           end
+      | OWhenR w w' =>
+          (* a request made from inside a delivery gets the same outcome, in the same step *)
+          quiet &&
+          match s_decided s with
+          | Some b => all_fire [w; w'] b fs
+          | None => no_fire fs
+          end
       | OExit _ =>
           quiet &&
-          match s_decided s with None => all_fire (s_waiting s) false fs | Some _ => no_fire fs end
+          match s_decided s with None => all_fire everyone false fs | Some _ => no_fire fs end
       | OTimeout =>
           if s_timer s then
             match s_decided s with
-            | None => all_fire (s_waiting s) false fs
+            | None => all_fire everyone false fs
                       && match signals es with [n] => beqb n w_TERM | _ => false end
             | Some true => no_fire fs && quiet
             | Some false => no_fire fs
@@ -314,8 +333,8 @@ Definition chunk_ok (c : cfg) (s : sst) (o : op) (es : list obs) : bool :=
                 if full_bootstrap s k then
                   (* everybody is told; the launch() result may be held back only while the configuration
                      is being attached (it is then due when that attach is over, see OAttach) *)
-                  all_fire (s_waiting s) true fs
-                  || (negb (s_att (absorb c s' es) =? 0) && all_fire (drop0 (s_waiting s)) true fs)
+                  all_fire everyone true fs
+                  || (negb (s_att (absorb c s' es) =? 0) && all_fire (drop0 everyone) true fs)
                 else no_fire fs
             | Some _ => no_fire fs
             end
@@ -353,6 +372,7 @@ Fixpoint wf_from (exited : bool) (ws : list N) (h : list op) : bool :=
   | OExit _ :: h' => negb exited && wf_from true ws h'
   | (OOut _ | OErr _) :: h' => negb exited && wf_from exited ws h'
   | OWhen w :: h' => negb (memN w ws) && wf_from exited (w :: ws) h'
+  | OWhenR w w' :: h' => negb (memN w ws) && negb (memN w' ws) && negb (w =? w') && wf_from exited (w' :: w :: ws) h'
   | _ :: h' => wf_from exited ws h'
   end.
 Definition wf (h : list op) : bool := wf_from false [0] h.
